@@ -29,7 +29,7 @@ import (
 // function, so a case stays a pure function of its draws.
 func TestC02Big(t *testing.T) {
 	rapid.Check(t, func(t *rapid.T) {
-		kind := rapid.SampledFrom([]string{"cmap12", "cmap4", "cmap-many-subtables", "name", "post", "kern", "kern-overlap", "glyf", "hmtx",
+		kind := rapid.SampledFrom([]string{"cmap12", "cmap4", "cmap-many-subtables", "name", "post", "kern", "kern-overlap", "gdef-order", "glyf", "hmtx",
 			"cff-glyphs", "cff-fdselect", "cff-strings", "container", "coverage", "classdef"}).Draw(t, "kind")
 		scale := rapid.SampledFrom([]int{1, 2, 4, 8, 16, 32, 64}).Draw(t, "scale")
 		fs := &bigFiller{s: rapid.Uint64().Draw(t, "fill")}
@@ -206,6 +206,11 @@ func buildBig(t *rapid.T, kind string, scale int, fs *bigFiller) (string, []byte
 		np := min(1000*scale+fs.intn(500), 65535)
 		length := 14 + 6*fs.intn(3)
 		return "kern.Read", overlappingKern(nsub, np, length)
+	case "gdef-order":
+		// a well-formed GDEF 1.2 table with two large irregular class tables
+		// and the (empty) mark glyph sets table in front of them: every
+		// offset fits, in this order
+		return "gdef.Read", gdefSetsFirst(min(500*scale+fs.intn(100), 30000))
 	case "glyf":
 		// thousands of small simple glyphs (and empty ones), long loca
 		n := min(4000*scale, 65535)
